@@ -15,6 +15,48 @@ pub fn odd_pc(case: &mut StepCase, e: &mut Ent) {
     }
 }
 
+/// One case in 16 is preceded, on the same emulator, by a step that *fails*: an operand word that cannot be
+/// fetched (a multi-word prefix in the last word of DRAM / of the vector area), an unimplemented or undefined
+/// opcode, a load / store / push / return through a pointer into unmapped space, an opcode fetch from unmapped
+/// space, an unsupported MES call. Its result is not judged here; the case that follows must behave as usual.
+pub fn failing_primer(case: &mut StepCase, e: &mut Ent) {
+    if !e.chance(1, 16) {
+        return;
+    }
+    const PREFIXES: [u16; 26] = [0x7c00, 0x7d00, 0x7d10, 0x7e80, 0x7f80, 0x0100, 0x0140, 0x01f0, 0x01c0, 0x01d0, 0x7800, 0x7810, 0x6a20, 0x6aa0, 0x6b20, 0x6ba0, 0x6a00, 0x5800, 0x7a00, 0x7900, 0x5e00, 0x5a00, 0x5c00, 0x6e00, 0x6f00, 0x7a10];
+    const REJECTED: [u16; 16] = [0x0000, 0x0180, 0x0700, 0x0300, 0x0401, 0x0601, 0x0501, 0xb000, 0x1e00, 0x0f00, 0x1f00, 0x17d0, 0x17f0, 0x7b5c, 0x0200, 0x0101];
+    const FAULTING: [u32; 12] = [0x6808, 0x6888, 0x6900, 0x6980, 0x6d70, 0x6df0, 0x5470, 0x5670, 0x5500, 0x5710, 0x5d00, 0x7d007000];
+    const UNMAPPED: [u32; 6] = [0x0080_0000, 0x0000_0100, 0x0060_0000, 0x00ff_0000, 0xff00_0100, 0x00fe_e100];
+    let reg = e.pick(&UNMAPPED);
+    let w2 = |w: u16| vec![(w >> 8) as u8, w as u8];
+    let p = match e.below(6) {
+        0 | 1 => Primer { pc: e.pick(&[0x5ffffeu32, 0x0000fe]), code: w2(e.pick(&PREFIXES)), reg },
+        2 => {
+            // the third word is missing
+            let (a, b) = e.pick(&[(0x0100u16, 0x6b20u16), (0x0100, 0x6ba0), (0x7800, 0x6a20), (0x7800, 0x6aa0), (0x0140, 0x6b20), (0x0100, 0x7800), (0x01f0, 0x6400)]);
+            let mut c = w2(a);
+            c.extend(w2(b));
+            Primer { pc: e.pick(&[0x5ffffcu32, 0x0000fc]), code: c, reg }
+        }
+        3 => Primer { pc: 0x5f0000 + 2 * e.below(0x100), code: w2(e.pick(&REJECTED)), reg },
+        4 => {
+            let c = e.pick(&FAULTING);
+            let code = if c > 0xffff { c.to_be_bytes().to_vec() } else { w2(c as u16) };
+            Primer { pc: 0x5f0000 + 2 * e.below(0x100), code, reg }
+        }
+        _ => {
+            if e.chance(1, 2) {
+                // opcode fetch from unmapped space
+                Primer { pc: e.pick(&[0x600000u32, 0x000100, 0x800000, 0xffffea]), code: vec![], reg }
+            } else {
+                // MES call with an unsupported number
+                Primer { pc: 0x5f0000 + 2 * e.below(0x100), code: vec![0x57, 0x00], reg }
+            }
+        }
+    };
+    case.primer = Some(p);
+}
+
 pub type Builder<'a, T> = &'a dyn Fn(&mut Ent) -> (StepCase, T);
 
 pub struct Drive<'a, T> {
@@ -54,8 +96,12 @@ impl<'a, T> Drive<'a, T> {
                     let (mut case, tag) = b(&mut e);
                     case.patches.extend(e.env_noise());
                     odd_pc(&mut case, &mut e);
+                    failing_primer(&mut case, &mut e);
                     let mut st = w.stats.borrow_mut();
                     st.class_n(&format!("enumerated: {}", sub), 1);
+                    if case.primer.is_some() {
+                        st.class("preceded by a failing step on the same emulator");
+                    }
                     let r = ev.eval(&mut w.emu.borrow_mut(), &mut st, &case, true, &mut |c, j, s| (self.classify)(c, j, &tag, s));
                     if r.is_err() {
                         stop = true;
@@ -70,7 +116,11 @@ impl<'a, T> Drive<'a, T> {
                     let (mut case, tag) = (self.build_random)(&mut e);
                     case.patches.extend(e.env_noise());
                     odd_pc(&mut case, &mut e);
+                    failing_primer(&mut case, &mut e);
                     let mut st = w.stats.borrow_mut();
+                    if case.primer.is_some() && !shrinking {
+                        st.class("preceded by a failing step on the same emulator");
+                    }
                     ev.eval(&mut w.emu.borrow_mut(), &mut st, &case, !shrinking, &mut |c, j, s| (self.classify)(c, j, &tag, s))
                 });
                 if let Some((raw, sig)) = fail {
@@ -79,6 +129,7 @@ impl<'a, T> Drive<'a, T> {
                     let (mut case, _) = (self.build_random)(&mut e);
                     case.patches.extend(e.env_noise());
                     odd_pc(&mut case, &mut e);
+                    failing_primer(&mut case, &mut e);
                     let mut st = w.stats.borrow_mut();
                     st.failures.retain(|f| f.signature != sig);
                     let _ = ev.eval(&mut w.emu.borrow_mut(), &mut st, &case, false, &mut |_, _, _| {});
